@@ -9,7 +9,7 @@ def run(ctx):
     from vf.pyvc import crosscheck_sym
 
     crosscheck_sym.guard(ctx)  # the symbolic-shape tensor layer against real torch, before the clauses that rest on it
-    api.run_vcs(ctx, C20_vc.p_vcs(ctx), {"C20.P.convex": "real dot-product soft attention source for SYMBOLIC sequence length, key size and value size: every output coordinate lies between any lower and upper bound of the kept values (induction over the sequence index; sum and softmax as assumed partial-sum contracts)",
+    api.run_vcs(ctx, C20_vc.p_vcs(ctx), {"C20.P.convex": "real dot-product soft attention source for SYMBOLIC sequence length, key size and value size: every output coordinate lies between any lower and upper bound of the kept values (induction over the sequence index; sum and softmax as assumed partial-sum contracts); also the forward inherited by the generalized-dot-product and concat flavours with `score` under contract (ANY real scores): the bound holds for every score function",
                                          "C20.P.blind": "two runs of the real dot-product soft attention on keys / values that agree at the kept positions give the same output, for SYMBOLIC sequence length, key size and value size (dot products by induction over the key dimension, softmax congruence assumed, weighted sums by induction over the sequence)"})
     api.run_vcs(ctx, C20_vc.vcs(ctx), {"C20.S.convex_blind": "real dot-product / generalised soft attention source: output coordinate within [min, max] of the kept values; output unchanged when masked keys/values are replaced; all contents"},
                 bounded="sequence length T<=3 (4), key size <=2, value size <=2, sequence dim 0, un-batched; ALL queries, keys, values, masks, parameters")
